@@ -29,7 +29,7 @@ RULE = ('Random Config DAGs (<=40 nodes): diamonds, nodes reachable by many path
         '(incl. sharing) to the directly evaluated graph; two builds share no built object. '
         'Non-trivial: >=3 Buildables and >=1 shared non-leaf node; distinct = DAG sketch.')
 RULE_ADDITIONS = (' Added by the rounds of seeded changes (DESIGN 9.7): ' +
-                  'DAGs mixing Config and Partial nodes, Partials with nothing bound; config containers must not appear in the built graph by identity; two builds share nothing; deep chains with siblings built first, no repeated invocation in failing builds')
+                  'DAGs mixing Config and Partial nodes, Partials with nothing bound; config containers must not appear in the built graph by identity; two builds share nothing; deep chains with siblings built first, no repeated invocation in failing builds; builds after update_callable carried arguments over to positional-only parameters')
 RULE = RULE + RULE_ADDITIONS
 ASSUMPTIONS = [
     'direct post-order evaluation of the abstract DAG (vf.gen.to_direct) is the specification',
